@@ -6,6 +6,8 @@
 import RbpfModel.Generated.EbpfConsts
 import RbpfModel.Model.WellFormed
 import RbpfModel.Model.AsmSpec
+import RbpfModel.Model.Disasm
+import RbpfModel.Generated.DisasmRows
 namespace Rbpf
 open Rbpf.Generated
 
@@ -43,5 +45,36 @@ theorem Consts_fields :
     constOf "LD_DW_IMM" = some 0x18 ∧ constOf "CALL" = some 0x85 ∧ constOf "EXIT" = some 0x95 ∧ constOf "JA" = some 0x05 ∧
     constOf "ST_W_XADD" = some 0xc3 ∧ constOf "ST_DW_XADD" = some 0xdb ∧ constOf "LE" = some 0xd4 ∧ constOf "BE" = some 0xdc := by
   decide +kernel
+
+end Rbpf
+
+/-! ### the disassembler's row table (`src/disassembler.rs`), translated -/
+namespace Rbpf
+open Rbpf.Generated
+
+/-- an instruction with a distinctive value in every field: each formatter renders it differently -/
+def constsProbe : Insn := { opc := 0, dst := 3, src := 4, off := 0xfffb, imm := 0x1234 }
+
+/-- the formatter functions of `disassembler.rs` ↦ the model's -/
+def formatterOf : String → Option (String → Insn → String)
+  | "alu_imm" => some Disasm.aluImm | "alu_reg" => some Disasm.aluReg | "byteswap" => some Disasm.byteswap
+  | "ld_st_imm" => some Disasm.ldStImm | "ld_reg" => some Disasm.ldReg | "st_reg" => some Disasm.stReg
+  | "ldabs" => some Disasm.ldabs | "ldind" => some Disasm.ldind | "jmp_imm" => some Disasm.jmpImm | "jmp_reg" => some Disasm.jmpReg
+  | "unary" => some Disasm.unary | "plain" => some Disasm.plain
+  | _ => none
+
+def disasmRowOk (row : String × String × String) : Bool :=
+  match constOf row.1, formatterOf row.2.2 with
+  | some opc, some r =>
+    (match Disasm.arm opc with
+     | some (n, render) => n == row.2.1 && render n constsProbe == r row.2.1 constsProbe
+     | none => false)
+  | _, _ => false
+
+/-- every single-line row of the real table — opcode constant, mnemonic, formatter — is the model's row for that opcode
+    (119 of the 123 arms; `lddw`, `ja`, `call`, `tail_call` have code of their own) -/
+theorem Consts_disasm_rows : disasmRows.all disasmRowOk = true := by decide +kernel
+
+theorem Consts_disasm_rows_count : disasmRows.length = 119 := by decide +kernel
 
 end Rbpf
